@@ -23,7 +23,7 @@ PARAMS = {
     "TAAdd": ("a", "t"), "TARead": ("a", "srcs"), "CMNewSeq": ("m", "t"), "TLAppendMemo": ("l", "t", "how", "k"), "TLMigrateMemo": ("l", "n", "k"), "TreeMigrateMemo": ("t", "n", "k"),
     "CMMigrateMemo": ("m", "n", "k"), "TLNewTreeSeed": ("l", "refs", "labs"), "TreeFromSeed": ("nsarg", "refs", "labs"),
     "CMSetItem": ("m", "t"), "CMGetTaxon": ("m", "t"), "CMGetLabel": ("m", "lab"), "CMGetIndex": ("m", "i"),
-    "CMMigrate": ("m", "n", "unify"), "CMReconstruct": ("m", "unify"), "CMUpdate": ("m",), "CMFromDict": ("keys", "nsarg"),
+    "CMMigrate": ("m", "n", "unify"), "CMReconstruct": ("m", "unify"), "CMClearReconstruct": ("m", "unify"), "CMUpdate": ("m",), "CMFromDict": ("keys", "nsarg"),
     "CMClone": ("m", "nsarg"), "DSRead": ("src", "nsarg"), "DSReadBlocks": ("blocks", "nsarg"), "DSAddList": ("l",), "DSAddMat": ("m",), "DSNewList": ("nsarg",),
     "DSNewMat": ("nsarg",), "DSAttach": ("n",), "DSDetach": (), "DSUnify": ("nsarg",),
 }
@@ -355,6 +355,11 @@ class World(object):
             return (lambda: M[a["m"]].migrate_taxon_namespace(N[a["n"]], unify_taxa_by_label=a["unify"])), "migrate"
         if name == "CMReconstruct":
             return (lambda: M[a["m"]].reconstruct_taxon_namespace(unify_taxa_by_label=a["unify"])), "reconstruct"
+        if name == "CMClearReconstruct":
+            def cm_clear_reconstruct():
+                M[a["m"]].taxon_namespace.clear()
+                M[a["m"]].reconstruct_taxon_namespace(unify_taxa_by_label=a["unify"])
+            return cm_clear_reconstruct, "clear+reconstruct"
         if name == "CMUpdate":
             return (lambda: M[a["m"]].update_taxon_namespace()), "update"
         if name == "CMFromDict":
